@@ -105,3 +105,12 @@ claim("C10", "exploration",
       "extremes, lengths up to 1023/1024, app ids, two chips, nine free-list states; router contents, order, app tag, block, untouched "
       "other entries/chips, error iff no block fits, read-back equality.",
       "SimMachine router/alloc commands from the controller's docstrings; router entry 0 reserved.", "DESIGN.md section 4, C10")
+claim("C14", "exploration",
+      "Simulated machine states (sizes 1x1..2x17, every dead-chip subset on <=3x2, unresponsive-but-listed chips, nine core-state "
+      "patterns incl. global+chip-specific busy cores, core counts 1..18, all 64 link subsets, free sdram/sram/router figures, Ethernet/"
+      "IP/local-Ethernet values, point-to-point addressing larger than the machine, dead corners) are probed through the real "
+      "get_system_info/get_chip_info/get_p2p_routing_table/get_processor_status/get_iobuf/get_router_diagnostics/get_software_version "
+      "(both version encodings) and compared field by field; the derived Machine, core reservations (exact cover of non-idle cores, no "
+      "overlap, in range) and routing-table target lengths are checked against the simulated state.",
+      "SimMachine encodes the info reply / p2p packing / vcpu block / iobuf chain from the controller's docstrings.",
+      "DESIGN.md section 4, C14")
